@@ -201,8 +201,10 @@ def apply_real(dbs, o):
                 kw['insert_before'] = _catname(pl[1])
             elif pl[0] == 'after':
                 kw['insert_after'] = _catname(pl[1])
-            db.add_context_category(_catname(c), macros=[_mk(s) for s in ms], environments=[_mk(s) for s in es],
-                                    specials=[_mk(s) for s in ss], **kw)
+            # the specifications are handed over as one-shot iterables / tuples as well as lists (documented: "iterable")
+            wrap = [list, iter, tuple, lambda l: (x for x in l)][(len(ms) + 2 * len(es) + len(ss) + len(dbs)) % 4]
+            db.add_context_category(_catname(c), macros=wrap([_mk(s) for s in ms]), environments=wrap([_mk(s) for s in es]),
+                                    specials=wrap([_mk(s) for s in ss]), **kw)
             return 'ok'
         if t == 'setunk':
             _, h, k, v = o
@@ -224,8 +226,9 @@ def apply_real(dbs, o):
             for key, x in (('unknown_macro_spec', um), ('unknown_environment_spec', ue), ('unknown_specials_spec', us)):
                 if x is not None:
                     kw[key] = _mk(x[1])
-            n = db.extended_with(category=_catname(c), macros=[_mk(s) for s in ms], environments=[_mk(s) for s in es],
-                                 specials=[_mk(s) for s in ss], **kw)
+            wrap = [list, iter, tuple][(len(ms) + len(es) + len(ss) + len(dbs)) % 3]
+            n = db.extended_with(category=_catname(c), macros=wrap([_mk(s) for s in ms]), environments=wrap([_mk(s) for s in es]),
+                                 specials=wrap([_mk(s) for s in ss]), **kw)
             dbs.append(n)
             return 'n%d' % (len(dbs) - 1)
     except (RuntimeError, ValueError, KeyError, TypeError, IndexError, AttributeError) as e:
